@@ -4,8 +4,8 @@ CFG = {
     "harness": ["v1", "v2"],
     "functional": ["C13.exec", "C13.tracker", "C13.body", "C13.assemble"],
     "required_classes": ["tracker", "body", "fault-every-write-index", "fault-every-hook", "exec-nofault", "exec-hook-fault", "assemble",
-                         "formattable", "unformattable", "uncreatable", "err-hook", "targets-continue", "through-io.WriteString", "assembled-again-over-its-own-output", "through-a-tracker-of-the-hook's-own", "error-through-a-merged-snippet-writer"],
-    "rule": "fault enumeration: (1) ErrorTracker over a writer that fails at write index k with a partial write, every k for 0-5 writes and partial sizes 0/1/all; (2) executeBody (hook ExecuteBody) with a failing hook at every position and a failing writer at every write index for 0-3 types; (3) every fallible hook of every generator of random small configurations, one at a time, through the real ExecutePackage(s)/ExecuteTarget(s); (4) the real Go file type on disk with uncreatable paths and unformattable content; non-trivial = input longer than 12 characters",
+                         "formattable", "unformattable", "uncreatable", "err-hook", "targets-continue", "through-io.WriteString", "assembled-again-over-its-own-output", "through-a-tracker-of-the-hook's-own", "error-through-a-merged-snippet-writer", "snippet-writer-over-failing-destination"],
+    "rule": "fault enumeration: (1) ErrorTracker over a writer that fails at write index k with a partial write, every k for 0-5 writes and partial sizes 0/1/all; (1b) a SnippetWriter directly over such a writer, every failing call for 1-4 snippets (oracle C13.snippet-write!: Error() is the first failure, nothing is written after it); (2) executeBody (hook ExecuteBody) with a failing hook at every position and a failing writer at every write index for 0-3 types; (3) every fallible hook of every generator of random small configurations, one at a time, through the real ExecutePackage(s)/ExecuteTarget(s); (4) the real Go file type on disk with uncreatable paths and unformattable content; non-trivial = input longer than 12 characters",
     "exhaustive": ["every write index x partial size for 0-5 writes (ErrorTracker)", "every hook position x every write index for 0-3 types (executeBody)",
                    "every fallible hook of every generator of each generated configuration"],
     "modelled": "ErrorTracker.Write/Error, executeBody, the error paths of ExecutePackage/ExecuteTarget and ExecutePackages/ExecuteTargets, DefaultFileType.AssembleFile's control flow (generator/, v2/generator/). The formatter result and os.Create's outcome are inputs of the model (computed by the real importsWrapper / observed).",
